@@ -21,6 +21,8 @@ RULES = {
              "B < STOP and B+size > START with size != 0; 'at' keeps exactly begin-in-range",
     "R12.x": "the lazy wrapper behind the index: edit-time capture, in-order replay or rebuild on "
              "every path, queue cleared, client discipline (R12.2-R12.4, shared with C12)",
+    "R05.8": "forest integrity ('each exactly once'): every node is in one collection once - the "
+             "attach/detach pairing and store routing of C04 (R03.3, R03.5)",
     "R05.6": "bias agreement: builders encode [b, b+size] as Interval(b, b+size+1) and every "
              "consumer of an interval end subtracts that bias",
 }
@@ -90,6 +92,9 @@ def run(chk: Check) -> None:
             delegation(chk, ir, "%s_blocks_%s" % (stem, s), [("attr", ("self",), "modules")], "R05.5")
     chk.floor("R05.5", "block lookup methods", n, 30)
     bias_consumers(chk, "R05.6", ["util", "section"])
+    for prop, rule, construct, ok, loc, msg, facts in own.obs:
+        if prop == "C04" and rule in ("R03.3", "R03.5"):
+            chk.ob("R05.8", construct, ok, loc, msg, facts)
     from .c12 import _capture, _get, _ownership
     lt = repo.cls("LazyIntervalTree")
     sub = chk.sub()
